@@ -139,7 +139,7 @@ def run(ctx):
     path = os.path.join(d, 'cases.txt')
     with open(path, 'w') as f:
         f.write('\n'.join(lines) + '\n')
-    impl, _ = core.run_tool(ctx.harness, ['c14', path])
+    impl, _ = core.run_tool_sharded(ctx.harness, ['c14'], path)
     impl = [l for l in impl if l]
     if len(impl) != len(lines):
         raise CheckFailure('corr', 'implementation produced %d lines for %d cases' % (len(impl), len(lines)))
@@ -182,7 +182,7 @@ def run(ctx):
         else:
             i += 1
     if ctx.model:
-        model, _ = core.run_tool(ctx.model, ['c14', path])
+        model, _ = core.run_tool_sharded(ctx.model, ['c14'], path)
         for k, a, b in core.diff_lines(model, impl, limit=5):
             ctx.violation('model and implementation disagree', case=lines[k] if k < len(lines) else None, model=a[:400], impl=b[:400])
     tags = {}
